@@ -1,2 +1,5 @@
 import PyOak.Props.C17Pattern
 import PyOak.Props.C17Reject
+import PyOak.Props.C17PatternSound
+import PyOak.Props.C17XPathSound
+import PyOak.Props.C17Legacy
